@@ -4,7 +4,7 @@
    modelled line by line (Model/SwcRead.v, compared exactly with the code on every generated
    file) and proved to pass the checker for EVERY well-formed file. *)
 From Coq Require Import List Arith Bool Reals.
-From JV Require Import Swc SwcFacts SetNcompFacts SwcRead SwcReadFacts.
+From JV Require Import Swc SwcFacts SetNcompFacts SwcRead SwcReadFacts SwcSplit SwcSplitFacts.
 Import ListNotations.
 
 (* if the checker accepts a sectioning, every section is a parent-child path of one type
@@ -67,6 +67,25 @@ Theorem C16_section_parents_correct : forall (rows : list srow) (sps : bool),
   (sps = true <-> (2 <= length rows /\ r_ty (row rows 2) <> 1)) ->
   check_parents (fst (read_sections rows sps)) (snd (snd (read_sections rows sps))) = true.
 Proof. exact read_sections_parents_ok. Qed.
+
+(* ---- max_branch_len: the equal-points splitting (Model/SwcSplit.v, compared exactly with _split_branch_equally) ----
+   the pieces chain (each starts at the last point of the previous one) and together cover the section ... *)
+Theorem C16_split_pieces_cover_the_section : forall (A : Type) (l : list A) (n : nat), 2 <= n -> 1 <= length l / n ->
+  match split_equally l n with
+  | first :: rest => first ++ flat_map (@tl A) rest = l
+  | [] => False
+  end.
+Proof. exact @split_covers. Qed.
+
+(* ... but the first piece has only len / n points: with fewer than 3 n points the first piece of a stem is
+   [soma, first neurite point] (traced length 0 under the gap convention, then set to 1 um), with fewer than 2 n
+   it is a single point (known findings F63 and F25) *)
+Theorem C16_first_piece_has_len_div_n_points : forall (A : Type) (l : list A) (n : nat), 1 <= n ->
+  length (hd [] (split_equally l n)) = length l / n.
+Proof. exact @first_piece_length. Qed.
+Theorem C16_equal_points_split_degenerates :
+  hd [] (split_equally [1; 2; 3; 4; 5; 6] 3) = [1; 2] /\ hd [] (split_equally [1; 2; 3] 2) = [1].
+Proof. split; [exact stem_of_six_points_in_three_pieces | exact three_points_in_two_pieces]. Qed.
 
 (* non-vacuity of the loop theorem: the model on the example file *)
 Example C16_loop_example :
